@@ -143,6 +143,90 @@ def check_s32(ctx, P2):
     ctx.check(ok, "canonical", "scalar32::from_bytes_canonical:polarity", "Some exactly when the borrow accumulator is non-zero (S < L)", "scalar32 from_bytes_canonical accepts under the wrong polarity", where=fn.where(), key="canonical:scalar32::from_bytes_canonical:polarity")
 
 
+def check_s32_order(ctx, P2):
+    """scalar32's byte-wise S < L: decided for ALL 2^256 inputs by 65 abstract cases of the interval domain — the position
+    k of the most significant byte where S differs from L and the order there (bytes above k equal L's, bytes below k
+    arbitrary), plus S == L.  In every case the accumulator folds to a constant."""
+    from .. import bounds, intern
+    chk = P2.fn_opt("curve25519::scalar::scalar32::Scalar::from_bytes_canonical::check_s_lt_l")
+    if chk is None:
+        ctx.lost("canonical", "scalar32::check_s_lt_l", "helper not found")
+        return
+    r = ssa.Eval(P2, chk).run()
+    intern.Interner().canon_result(r)
+    ret = r.ret
+    Lb = list(curve.L.to_bytes(32, "little"))
+
+    def run_case(k, order):
+        def leaf(t):
+            i = None
+            if t[0] == "elem" and isinstance(t[1], tuple) and t[1] and t[1][0] == "load" and t[1][1] == "arg1" and isinstance(t[2], int):
+                i = t[2]
+            elif t[0] == "load":
+                m = re.match(r"^arg1\[(\d+)\]$", t[1])
+                if m:
+                    i = int(m.group(1))
+            if i is None:
+                return None
+            if k is None or i > k:
+                return (Lb[i], Lb[i])
+            if i == k:
+                return (0, Lb[i] - 1) if order == "<" else (Lb[i] + 1, 255)
+            return (0, 255)
+        ev = bounds.Iv(leaf)
+        return ev.iv(ret), ev.unknown
+    bad = []
+    n = 0
+    for k in list(range(32)) + [None]:
+        for order in (("<", ">") if k is not None else ("=",)):
+            if k is not None and ((order == "<" and Lb[k] == 0) or (order == ">" and Lb[k] == 255)):
+                continue
+            n += 1
+            v, unk = run_case(k, order)
+            want = 0 if order == "<" else 1          # the helper returns `c == 0`, i.e. NOT (S < L)
+            if v != (want, want) or unk:
+                bad.append((k, order, v))
+    ctx.check(not bad and n >= 40, "canonical", "scalar32::check_s_lt_l:order", "returns false exactly when S < L: %d cases (first differing byte x order, and S == L) each fold to a constant" % n,
+              "scalar32's byte-wise S < L test is not the big-endian order of the 32 bytes: cases (byte, order at that byte, result interval) %s" % bad[:4], where=chk.where(), key="canonical:scalar32::check_s_lt_l:order")
+
+
+def check_bits_all(ctx, P, backend):
+    """Scalar::bits(): r[i] is bit i of the scalar for EVERY i in 0..256 (the sliding-window recoding reads all of them;
+    a canonical S can have bit 252 set)."""
+    fn = P.fn("curve25519::scalar::%s::Scalar::bits" % backend)
+    ev = ssa.Eval(P, fn)
+    ev.MAXIT = 300
+    ev.MAXWORK = 400000
+    r = ev.run()
+    ret = r.ret
+    inst = "%s::Scalar::bits" % backend
+    if not isinstance(ret, ssa.Agg):
+        ctx.fail("bits-all", inst, "cannot see the 256 entries of the result (the loop is not a constant-trip loop over 0..256?)", where=fn.where(), key="bits-all:%s" % inst)
+        return
+    if backend == "scalar64":
+        def leaf(t):
+            if t[0] == "load":
+                m = re.match(r"^arg1\.0\[(\d)\]$", t[1])
+                if m:
+                    j = int(m.group(1))
+                    return [("S", 56 * j + b) for b in range(56)] + [0] * 8
+            return None
+    else:
+        base = termbits.byte_leaf({"arg1.0", "arg1"})
+
+        def leaf(t):
+            b = base(t)
+            return [("S", x[1]) for x in b] if b is not None else None
+    B = termbits.Bits(leaf)
+    bad = []
+    for i in range(256):
+        e = ret.get_elem(i)
+        got = B.bits(e, 8)
+        if got != [("S", i)] + [0] * 7:
+            bad.append((i, termbits.show(got)))
+    ctx.check(not bad, "bits-all", inst, "r[i] = bit i of the scalar for all 256 positions", "%s does not return every bit of the scalar: wrong entries %s" % (inst, bad[:4] + (["... %d in total" % len(bad)] if len(bad) > 4 else [])), where=fn.where(), key="bits-all:%s" % inst)
+
+
 def check_window(ctx, P):
     fn = P.fn("curve25519::ge::GePartial::double_scalarmult_vartime")
     # ai = [a1, a3, ..., a15] with a1 = to_cached(A), a2 = double(A), a_(2k+1) = to_cached(to_full(a2 + a_(2k-1)))
@@ -262,7 +346,19 @@ def run(ctx):
     ctx.guard("table", "BI/fe64", lambda: C15.check_tables(ctx, P, "fe64"))
     P2 = ctx.prog("K2")
     ctx.guard("canonical", "scalar32", lambda: check_s32(ctx, P2))
+    ctx.guard("canonical", "scalar32-order", lambda: check_s32_order(ctx, P2))
+    ctx.guard("bits-all", "scalar64", lambda: check_bits_all(ctx, P, "scalar64"))
+    ctx.guard("bits-all", "scalar32", lambda: check_bits_all(ctx, P2, "scalar32"))
     ctx.guard("table", "BI/fe32", lambda: C15.check_tables(ctx, P2, "fe32"))
     ctx.guard("verify", "ed25519::verify/K2", lambda: check_verify(ctx, P2))
     ctx.guard("sign-convention", "verify x decode", lambda: check_convention(ctx, P))
+    # "every signature produced by signing verifies under the matching public key": the key derivations and the
+    # signing equation (rule instances shared with C13), and the 32-bit backend's scalar arithmetic used by both sides
+    ctx.guard("wire", "keys", lambda: C13.check_keys(ctx, P))
+    ctx.guard("clamp", "ed25519", lambda: C13.check_clamp(ctx, P))
+    ctx.guard("sign", "signature", lambda: C13.check_signature(ctx, P, "ed25519::signature", "extended_secret(keypair_private(arg2))", "keypair_public(arg2)"))
+    ctx.guard("sign", "signature_extended", lambda: C13.check_signature(ctx, P, "ed25519::signature_extended", "arg2", "extended_to_public(arg2)"))
+    from . import sc32
+    ctx.guard("sc", "scalar32::reduce", lambda: sc32.check_scalar32(ctx, P2, "reduce"))
+    ctx.guard("sc", "scalar32::muladd", lambda: sc32.check_scalar32(ctx, P2, "muladd"))
     ctx.not_decided += ["that double_scalarmult_vartime computes hA + sB (sliding-window digit arithmetic)", "SHA-512 and the group / field arithmetic values (C01, C15)"]
